@@ -16,7 +16,7 @@ RULE = ("well-formed: index lists of length 0..5 over [0,2^32) with edge values,
         "with and without marker) applied at every level 1..5; deep: well-formed paths of 6..12 levels; lenient: spellings "
         "Python's int() accepts (+5, ' 7', 1_0, non-ASCII digits, trailing '/') judged for value only; distinct = distinct "
         "(monitor, case) digests"
-        " EXTENSIONS: + all two- and three-marker suffix combinations, well-formed twins (case / NFKC / stripped spellings) looked up before the malformed string, wallets imported at depth d (private and watch-only), every refusal repeated three times, out-of-range numbers dressed the way int() tolerates, every malformed string also offered to watch-only wallets imported at depth 0 and 3, request histories")
+        " EXTENSIONS: + all two- and three-marker suffix combinations, well-formed twins (case / NFKC / stripped spellings) looked up before the malformed string, wallets imported at depth d (private and watch-only), every refusal repeated three times, out-of-range numbers dressed the way int() tolerates, every malformed string also offered to watch-only wallets imported at depth 0 and 3, request histories, structure around well-formed paths (leading / doubled separators, doubled root, blanks) within five levels")
 LEVEL_TEXT = ("Each Bip32Path.parse / str / by_path / str(node) execution is compared with an own strict recursive-descent "
               "parser and the reference derivation; malformed strings must make by_path raise (a returned node is the "
               "violation); paths deeper than five levels must raise or yield the node of the FULL path.")
@@ -288,6 +288,16 @@ def run(ctx):
             n += 1
             if ctx.mine(n):
                 judge_malformed(ctx, {"seed": seed, "testnet": tn, "s": r + tail, "fault": "root"})
+    # STRUCTURE around an otherwise well-formed path: separators in front of the root (the absolute-file-path habit), a doubled
+    # root, the root behind a separator only, separators doubled inside - whatever tidies a path up must not tidy these into a
+    # well-formed one (strings the reference grammar still accepts are skipped by judge_malformed)
+    for wf in ("m", "m/0", "m/0'/1", "M/0/1", "m/44'/0'/0'/0/5", "m/84h/1h/0h"):
+        for form in ("/%s", "//%s", "///%s", "/%s/", " /%s", "%s//1", "m/%s", "M/%s", "/m/%s", "%s/m", ".//%s", "./%s", "\\%s", "%s\\0", "/ %s"):
+            n += 1
+            if (form % wf).count("/") > 5:
+                continue          # (beyond five levels the known finding C17.truncate_gt5 decides what is looked at: `deep` monitor)
+            if ctx.mine(n):
+                judge_malformed(ctx, {"seed": seed, "testnet": tn, "s": form % wf, "fault": "structure"})
     for _ in range(ctx.scale(640, 30000)):
         total = rnd.randrange(1, 6)
         comps = [str(rnd.randrange(0, H)) + rnd.choice(["", "'", "h"]) for _ in range(total)]
